@@ -90,6 +90,8 @@ def gen(rng, tier, index):
     if len(images) >= 2 and rng.random() < 0.3:
         extra_cfg["late_image"] = rng.randrange(len(images))
         extra_cfg["late_at"] = rng.choice([0.05, 0.4, 1.0, 2.5])
+    if rng.random() < 0.3:
+        extra_cfg["unknown_in_list"] = rng.choice([0.0, 0.0, 0.5, 0.99])
     if flavour in ("aserial", "atcp") and len(images) >= 2 and rng.random() < 0.5:
         extra_cfg["concurrent_updates"] = True
         for i, img in enumerate(images[:2]):
@@ -397,6 +399,11 @@ def run(case):
                 data = bytes.fromhex(img["data"])
                 prep = {"idx": idx, "img": img, "data": data, "key": keys[idx], "ok": True, "path": None,
                         "targets": [s["node"] for s in case["ops"] if s["image"] == idx]}
+                if cfg.get("unknown_in_list") is not None and prep["targets"]:
+                    # the list of the update call also names a node the gateway does not know (anywhere in the list):
+                    # that one is skipped, the others are updated
+                    prep["targets"].insert(int(cfg["unknown_in_list"] * (len(prep["targets"]) + 1)), 199)
+                    probes["update_lists_with_unknown_id"] = probes.get("update_lists_with_unknown_id", 0) + 1
                 if img["via"] == "hex":
                     text = intel_hex(data, img["record_len"], img.get("base", 0), img["ela"], img.get("gap"))
                     if img.get("gap"):
